@@ -1,0 +1,17 @@
+//go:build !verif
+
+package lua
+
+import "reflect"
+
+// Verification hooks (see verif_on.go). With the `verif` build tag off they are
+// empty and cost nothing.
+
+type verifGlobal struct{}
+
+func verifStep(L *LState)     {}
+func verifDispatch(L *LState) {}
+
+func verifChanPre(L *LState, op int, ch reflect.Value)     {}
+func verifSelectPre(L *LState, cases []reflect.SelectCase) {}
+func verifChanPost(L *LState, op int, pos int, ok bool)    {}
